@@ -4957,7 +4957,7 @@ def feret_diameter(chulls, counts, indexes):
 
     pt1 = chulls[antipodes[:, 0], 1:]
     pt2 = chulls[antipodes[:, 1], 1:]
-    distances = np.sum((pt1 - pt2) ** 2, 1)
+    distances = np.sum((pt1.astype(np.int64) - pt2) ** 2, 1)
 
     max_distance = np.sqrt(
         fixup_scipy_ndimage_result(scind.maximum(distances, l, indexes))
